@@ -7,6 +7,7 @@ import (
 	"slices"
 	"sort"
 	"strconv"
+	"strings"
 	"ti/base"
 	"ti/builtin"
 	"ti/eval"
@@ -468,12 +469,17 @@ func printAllClasses() {
 	sort.Strings(classes)
 
 	for _, className := range classes {
-		fmt.Println(prefixSignature + className + separator + className)
+		fmt.Println(prefixSignature + field(className) + separator + field(className))
 	}
 }
 
+// a record is one line: a field never carries a raw newline
+func field(s string) string {
+	return strings.ReplaceAll(s, "\n", "\\n")
+}
+
 func printDefinitionTarget(frame, class string) {
-	fmt.Println(prefixDefinitionTarget + frame + separator + class)
+	fmt.Println(prefixDefinitionTarget + field(frame) + separator + field(class))
 }
 
 func printMatchingSignatures(p parser.Parser) {
@@ -494,10 +500,10 @@ func printInheritanceMap() {
 
 func printSignature(sig base.Sig) {
 	line := prefixSignature +
-		sig.Frame + separator +
-		sig.Class + separator +
-		sig.Method + separator +
-		sig.FileName + separator +
+		field(sig.Frame) + separator +
+		field(sig.Class) + separator +
+		field(sig.Method) + separator +
+		field(sig.FileName) + separator +
 		strconv.Itoa(sig.Row)
 
 	fmt.Println(line)
@@ -505,17 +511,17 @@ func printSignature(sig base.Sig) {
 
 func printInheritance(child, parent base.ClassNode) {
 	line := prefixInheritance +
-		child.Frame + separator +
-		child.Class + separator +
-		parent.Frame + separator +
-		parent.Class
+		field(child.Frame) + separator +
+		field(child.Class) + separator +
+		field(parent.Frame) + separator +
+		field(parent.Class)
 
 	fmt.Println(line)
 }
 
 func printSuggestion(contents, detail string, document string) {
 	fmt.Println(
-		prefixSignature + contents + separator + detail + separator + document,
+		prefixSignature + field(contents) + separator + field(detail) + separator + field(document),
 	)
 }
 
